@@ -427,6 +427,28 @@ func (g *c10Gen) randomSeq(alpha []string, n int) string {
 
 var c10RandChars = []rune(" \t\n\r()[],<>=!\"'\\.-+:_abdefilnorstuyzABTZ0123456789@#$%^&*;~`{}|?/\x00\x1fé世 �")
 
+// charSweep: every ASCII code point and a sample of non-ASCII ones (Unicode spaces, line separators,
+// BOM, astral) in every lexical context - alone, at token boundaries, inside identifiers, keywords,
+// numbers, strings, datetimes, composite tokens, arrays.  A lexer that admits (or drops) one code
+// point more or less than the grammar file does disagrees with the reference lexer on one of these.
+func (g *c10Gen) charSweep() {
+	var chars []rune
+	for c := rune(0); c < 0x80; c++ {
+		chars = append(chars, c)
+	}
+	chars = append(chars, 0x80, 0x85, 0xa0, 0xad, 0xff, 0x100, 0x3b1, 0x1680, 0x2000, 0x2003, 0x200b, 0x2028, 0x2029, 0x202f, 0x205f,
+		0x3000, 0xd7ff, 0xe000, 0xfeff, 0xfffd, 0xffff, 0x10000, 0x1f600, 0x10ffff)
+	ctx := []string{"%s", "%sa = 1", "a = 1%s", "a%s= 1", "a =%s1", "a%sb = 1", "a = 1%s2", `s = "x%sy"`, "n in [1%s,2]", "n in [1,%s2]",
+		"a = datetime(2020-01-01T00:00:00%sZ)", "a = datetime(%s2020-01-01T00:00:00Z)", "a = 1 sort by a%sdesc", "a not%sin [1]",
+		"a not%scontains \"x\"", "a%sand b", "a an%sd b", "not%sa", "isEmpty(%sss)", "count(ss%s) > 1", "'s%s' = 1", "tags.x%sy = 1", "a = 1 limit%s5",
+		"a = -%s1", "a = 1.%s5", "a = 1e%s3", "a !%s= 1", "a <%s= 1"}
+	for _, c := range chars {
+		for _, f := range ctx {
+			g.emitL(strings.Replace(f, "%s", string(c), 1))
+		}
+	}
+}
+
 // ---- driver ---------------------------------------------------------------------------------
 
 func (g *c10Gen) run() {
@@ -443,7 +465,8 @@ func (g *c10Gen) run() {
 		"allOf(ss) in [\"x\"]", "count(ss) between 1 and 2", "a between 1 and datetime(2020-01-01T00:00:00Z)", "a=1 and(b=2)", "(a=1)and b=2", "not\t(a)"} {
 		g.emitL(s)
 	}
-	nS, nM, nR, nSeq := 10000, 24000, 6000, 5000
+	g.charSweep()
+	nS, nM, nR, nSeq := 6500, 15600, 3500, 3000 // quick: trimmed so that the whole check stays well under 25 s on an idle machine
 	if thorough {
 		nS, nM, nR, nSeq = 250000, 750000, 200000, 200000
 	}
@@ -486,4 +509,5 @@ func (g *c10Gen) run() {
 	g.genQueries()
 	g.genTrees()
 	g.genBolt()
+	g.genObj()
 }
